@@ -785,7 +785,11 @@ func collCall(r *rng, depth int) MalType {
 		if depth > 0 && r.chance(1, 4) {
 			items = append(items, collCall(r, depth-1)) // composition
 		} else {
-			items = append(items, call1("quote", collArg(r, 1)))
+			a := collArg(r, 1)
+			if v, isInt := a.(int); isInt && (v > 1000 || v < -1000) && (b.name == "range" || b.name == "take" || b.name == "drop") {
+				a = v % 50 // (range -2 9223372036854775807) is a question of memory and patience, not of meaning
+			}
+			items = append(items, call1("quote", a))
 		}
 	}
 	return List{Val: items}
